@@ -21,7 +21,8 @@ def corpus():
     out.append({"start": "empty", "ops": [["addchart", ["a", "b", "c", "d", "e", "0", ["x"]]], ["ser"], ["extradata", 0, ["y", "z"]], ["ser"], ["extradata", 0, []]]})
     out.append({"start": "empty", "ops": [["set", "A", "x:y;z\\w//c\nd"], ["set", "B", ""], ["addchart", ["a", "b", "c", "d", "e", "", []]]]})
     # note data and fields that are their own strip() yet hold blanks before inner line breaks, other line breaks, a byte order mark
-    out.append({"start": "empty", "ops": [["addchart", ["dance-single", "a \n b", "Easy", "1", "0,0", "1000 \n0100\r\n0010\x0b0001\u2028,  \n0000", []]]]})
+    out.append({"start": "empty", "ops": [["addchart", ["dance-single", "d", "Easy", "1", "0,0", "0000", []]], ["field", 0, "notes", "1000 \n0100\r\n0010\x0b0001\u2028,  \n0000"],
+                                          ["field", 0, "description", "a \n b"], ["addchart", ["dance-single", "a \n b", "Easy", "1", "0,0", "1000 \n0100", [], [5, 1, 0, 2, 3, 4]]]]})
     out.append({"start": "blank", "ops": [["set", "GENRE", "zero\ufeffwidth"], ["set", "X\ufeff", "\ufeff"], ["addchart", ["a", "b", "c", "d", "e", "00\ufeff00", ["\ufeff"]]]]})
     # a chart whose steps type is the word NOTES, with and without extra components
     out.append({"start": "empty", "ops": [["addchart", ["NOTES", "desc", "Hard", "9", "0,0", "0000", ["extra"]]], ["addchart", ["notes", "d", "Easy", "1", "0", "1", []]]]})
